@@ -19,6 +19,7 @@ import (
 	"encoding/binary"
 	"errors"
 	"fmt"
+	"os"
 	"regexp"
 	"sort"
 	"strings"
@@ -375,6 +376,10 @@ type c20LC struct {
 
 // The cases in which the stub's Update has no newer block make the unrepaired client panic; they are
 // generated only with VERIF_C20_F80=1 until repair F80 (fixes/F80-*.diff) is in the tree.
+// The ConsensusParams(nil) cases (finding F86) fail on the unrepaired client; they are generated only with
+// VERIF_C20_F86=1 until repair fixes/F86-*.diff is in the tree.  THE ONE PLACE TO FLIP: return true here.
+func c20F86() bool { return os.Getenv("VERIF_C20_F86") == "1" }
+
 func c20F80() bool { return true } // regression cases of finding F80 (repaired in /repo)
 
 func (l *c20LC) ChainID() string { return l.c.chainID }
@@ -512,6 +517,8 @@ type c20Server struct {
 	search           *ctypes.ResultTxSearch
 	query            *ctypes.ResultABCIQuery
 	params           *ctypes.ResultConsensusParams
+	paramsFn         func(h *int64) (*ctypes.ResultConsensusParams, error) // answers per request (ConsensusParams as a conversation)
+	paramsAsked      []string
 	results          *ctypes.ResultBlockResults
 	latest           int64
 	asked            []string
@@ -542,6 +549,14 @@ func (s *c20Server) ABCIQueryWithOptions(ctx context.Context, path string, data 
 	return c20Wire(s.query), nil
 }
 func (s *c20Server) ConsensusParams(ctx context.Context, h *int64) (*ctypes.ResultConsensusParams, error) {
+	if s.paramsFn != nil {
+		s.paramsAsked = append(s.paramsAsked, c20OptZ(h))
+		res, err := s.paramsFn(h)
+		if err != nil {
+			return nil, err
+		}
+		return c20Wire(res), nil
+	}
 	return c20Wire(s.params), nil
 }
 func (s *c20Server) BlockResults(ctx context.Context, h *int64) (*ctypes.ResultBlockResults, error) {
@@ -672,7 +687,7 @@ var c20BlockKinds = []string{"honest", "honest", "other-height-genuine", "tx-fli
 	"tx-add+rehash", "tx-swap+rehash", "tx-swap", "hdr-apphash+reid", "hdr-apphash", "hdr-results+reid", "hdr-cons+reid",
 	"hdr-vals+reid", "hdr-time+reid", "hdr-height+reid", "hdr-height-beyond+reid", "hdr-lastblockid+reid",
 	"id-hash", "id-parts", "id-parts-total", "id-parts-other-block", "id-zero", "commit-sig", "commit-sig+rehash", "block-nil", "hdr-datahash-nil",
-	"hdr-proposer-short+reid", "hdr-valhash-empty+idzero", "lc-cannot-verify", "fork-block"}
+	"hdr-proposer-short+reid", "hdr-valhash-empty+idzero", "lc-cannot-verify", "fork-block", "honest-latest"}
 
 func c20MutBlock(kind string, c *c20Chain, h int64, r *vg.Rand) (res *ctypes.ResultBlock, descr string) {
 	res = c20Wire(c.honestBlock(h))
@@ -799,9 +814,13 @@ func c20BlockCases(t *testing.T, cs *vg.Cases, c *c20Chain, r *vg.Rand) {
 			h = 2
 		}
 		byHash := k%2 == 1
+		latest := kind == "honest-latest" // Block(nil): rpc/core answers with the block at the store's height
+		if latest {
+			h, byHash = c.n, false
+		}
 		lc := c20NewLC(c)
 		res, descr := c20MutBlock(kind, c, h, rr)
-		honest := kind == "honest"
+		honest := kind == "honest" || latest
 		if kind == "lc-cannot-verify" {
 			lc.c = &c20Chain{chainID: c.chainID, n: 0} // light client fails for every height
 		}
@@ -812,6 +831,8 @@ func c20BlockCases(t *testing.T, cs *vg.Cases, c *c20Chain, r *vg.Rand) {
 			var err error
 			if byHash {
 				_, err = cl.BlockByHash(context.Background(), c.ids[h-1].Hash)
+			} else if latest {
+				_, err = cl.Block(context.Background(), nil)
 			} else {
 				_, err = cl.Block(context.Background(), &h)
 			}
@@ -825,6 +846,9 @@ func c20BlockCases(t *testing.T, cs *vg.Cases, c *c20Chain, r *vg.Rand) {
 		if byHash {
 			method = "BlockByHash"
 		}
+		if latest {
+			method = "Block(nil) answered as rpc/core does, with the block of the store's height: Block"
+		}
 		cs.Add(id, "block/"+kind, kind != "honest",
 			vg.App("CBlock", oterm, vg.B(view.BlockID.ValidateBasic() == nil), vg.Hx(view.BlockID.Hash),
 				c20PSHTerm(view.BlockID.PartSetHeader), c20BlockTerm(view.Block), vg.B(run.relayed), vg.L(run.calls), vg.B(honest)),
@@ -837,7 +861,7 @@ func c20BlockCases(t *testing.T, cs *vg.Cases, c *c20Chain, r *vg.Rand) {
 
 var c20InfoKinds = []string{"honest", "honest-partial-store", "meta-hdr-apphash+reid", "meta-hdr-apphash", "meta-fork+reid",
 	"meta-nil", "meta-size", "meta-numtxs", "last-height", "meta-dropped", "metas-reversed", "empty", "meta-id-parts",
-	"meta-id-parts-total", "meta-height-swap+reid", "meta-beyond+reid", "last-untrusted-by-lc"}
+	"meta-id-parts-total", "meta-height-swap+reid", "meta-beyond+reid", "last-untrusted-by-lc", "honest-latest"}
 
 func c20InfoCases(t *testing.T, cs *vg.Cases, c *c20Chain, r *vg.Rand) {
 	for k, kind := range c20InfoKinds {
@@ -848,6 +872,9 @@ func c20InfoCases(t *testing.T, cs *vg.Cases, c *c20Chain, r *vg.Rand) {
 		rr := r.Fork(uint64(2000 + k))
 		max := 2 + rr.Int63n(c.n-1)
 		min := 1 + rr.Int63n(max-1)
+		if kind == "honest-latest" { // BlockchainInfo(0, 0): rpc/core answers with the last (at most 20) metas up to the store's height
+			min, max = 1, c.n
+		}
 		res := &ctypes.ResultBlockchainInfo{LastHeight: c.n}
 		for h := max; h >= min; h-- {
 			res.BlockMetas = append(res.BlockMetas, c.honestMeta(h))
@@ -858,7 +885,11 @@ func c20InfoCases(t *testing.T, cs *vg.Cases, c *c20Chain, r *vg.Rand) {
 		m := res.BlockMetas[pick]
 		reid := func() { m.BlockID.Hash = m.Header.Hash() }
 		// honest answers, whatever the light client happens to have stored already
-		honest := kind == "honest" || kind == "honest-partial-store" || kind == "last-untrusted-by-lc"
+		honest := kind == "honest" || kind == "honest-partial-store" || kind == "last-untrusted-by-lc" || kind == "honest-latest"
+		qmin, qmax := min, max
+		if kind == "honest-latest" {
+			qmin, qmax = 0, 0
+		}
 		switch kind {
 		case "honest-partial-store": // an honest answer, but the light client's store lacks some of the heights
 			lc.trusted[max] = false
@@ -904,7 +935,7 @@ func c20InfoCases(t *testing.T, cs *vg.Cases, c *c20Chain, r *vg.Rand) {
 		cl := c20Client(srv, lc, true)
 		view := c20Wire(res)
 		run := c20Call(lc, func() error {
-			_, err := cl.BlockchainInfo(context.Background(), min, max)
+			_, err := cl.BlockchainInfo(context.Background(), qmin, qmax)
 			return err
 		})
 		var ms, ids, want []string
@@ -925,7 +956,7 @@ func c20InfoCases(t *testing.T, cs *vg.Cases, c *c20Chain, r *vg.Rand) {
 		cs.Add(id, "info/"+kind, kind != "honest",
 			vg.App("CInfo", lc.term(false), vg.L(ms), vg.B(run.relayed), vg.L(run.calls), vg.B(honest)),
 			fmt.Sprintf("chain#%d(n=%d) BlockchainInfo(%d,%d), server answers metas of heights %v with BlockIDs %v (the verified commits of heights %d..%d are for %v), falsification: %s (meta #%d); relayed=%v err=%q",
-				c.idx, c.n, min, max, hs, ids, max, min, want, kind, pick, run.relayed, run.err))
+				c.idx, c.n, qmin, qmax, hs, ids, max, min, want, kind, pick, run.relayed, run.err))
 	}
 }
 
@@ -1985,6 +2016,147 @@ func c20ParamsCases(t *testing.T, cs *vg.Cases, c *c20Chain, r *vg.Rand) {
 	}
 }
 
+// ---------------------------------------------------------------- ConsensusParams as a conversation (with and without a height)
+
+// rpc/core ConsensusParams on a node whose store is at the chain's tip (not syncing): getHeight(latestUncommittedHeight(), h) -
+// no height means tip + 1, the parameters the NEXT block will be made under; an explicit height must be in 1 .. tip + 1
+func (c *c20Chain) coreParams(h *int64) (*ctypes.ResultConsensusParams, error) {
+	height := c.n + 1
+	if h != nil {
+		if *h <= 0 {
+			return nil, fmt.Errorf("height must be greater than 0, but got %d", *h)
+		}
+		if *h > c.n+1 {
+			return nil, fmt.Errorf("height %d must be less than or equal to the current blockchain height %d", *h, c.n+1)
+		}
+		height = *h
+	}
+	at := height
+	if at > c.n { // nothing changes the parameters after the last block
+		at = c.n
+	}
+	return &ctypes.ResultConsensusParams{BlockHeight: height, ConsensusParams: c.params[at-1]}, nil
+}
+
+func c20ParamsReqCases(t *testing.T, cs *vg.Cases, c *c20Chain, r *vg.Rand) {
+	type pq struct {
+		kind   string
+		nilReq bool
+		lcMode int // 0 Update returns block n; 1 Update has nothing newer, latest trusted < = n; 2 Update fails; 3 empty store
+	}
+	qs := []pq{{"honest", false, 0}, {"honest-for-tip+1", false, 0}, {"max-bytes", false, 0}, {"beyond-tip+1", false, 0}}
+	if c20F86() {
+		qs = append(qs, pq{"honest", true, 0}, pq{"honest", true, 1}, pq{"honest", true, 1}, pq{"honest-but-update-fails", true, 2},
+			pq{"honest-but-empty-store", true, 3}, pq{"max-bytes", true, 0}, pq{"max-gas", true, 1}, pq{"evidence-age", true, 0},
+			pq{"label-other-height-genuine", true, 0}, pq{"label-other-height-genuine", true, 1}, pq{"params-of-other-height", true, 0},
+			pq{"always-answers-for-tip+1", true, 0}, pq{"label-zero", true, 0}, pq{"pubkey-types-none", true, 0}, pq{"server-error", true, 1},
+			pq{"label-plus-1", true, 0})
+	}
+	for k, q := range qs {
+		id := cs.NextID()
+		if !cs.Want(id) {
+			continue
+		}
+		rr := r.Fork(uint64(10000 + k))
+		lc := c20NewLC(c)
+		latest := c.n // the light client's latest block
+		switch q.lcMode {
+		case 1:
+			lc.updateNone = true
+			latest = 1 + rr.Int63n(c.n)
+			c20TrustUpTo(lc, latest)
+		case 2:
+			lc.updateOK = false
+		case 3:
+			lc.updateNone = true
+			c20TrustUpTo(lc, 0)
+		}
+		var hp *int64
+		if !q.nilReq {
+			h := 1 + rr.Int63n(c.n)
+			if q.kind == "honest-for-tip+1" {
+				h = c.n + 1 // the node answers (label tip+1), the light client has no such header yet
+			}
+			if q.kind == "beyond-tip+1" {
+				h = c.n + 2
+			}
+			hp = &h
+		}
+		other := c20OtherHeight(c, latest, rr)
+		fn := func(h *int64) (*ctypes.ResultConsensusParams, error) { // the (possibly lying) server
+			res, err := c.coreParams(h)
+			if err != nil {
+				return nil, err
+			}
+			res = c20Wire(res)
+			p := &res.ConsensusParams
+			switch q.kind {
+			case "max-bytes":
+				p.Block.MaxBytes += 1 + int64(k)
+			case "max-gas":
+				p.Block.MaxGas += 1 + int64(k)
+			case "evidence-age":
+				p.Evidence.MaxAgeNumBlocks = 1
+				p.Evidence.MaxAgeDuration = time.Second
+			case "label-other-height-genuine": // the genuine, complete answer for another height
+				return c.coreParams(&other)
+			case "params-of-other-height": // labelled as asked, but the parameters another height had (may coincide: then it is the truth)
+				o, _ := c.coreParams(&other)
+				res.ConsensusParams = o.ConsensusParams
+			case "always-answers-for-tip+1":
+				return c.coreParams(nil)
+			case "label-zero":
+				res.BlockHeight = 0
+			case "label-plus-1":
+				res.BlockHeight++
+			case "pubkey-types-none":
+				p.Validator.PubKeyTypes = nil
+			case "server-error":
+				return nil, errors.New("internal error")
+			}
+			return res, nil
+		}
+		srv := &c20Server{paramsFn: fn}
+		cl := c20Client(srv, lc, true)
+		var out *ctypes.ResultConsensusParams
+		run := c20Call(lc, func() error {
+			var err error
+			out, err = cl.ConsensusParams(context.Background(), hp)
+			return err
+		})
+		asked := append([]string{}, srv.paramsAsked...)
+		// the server's answer to every request it can get
+		var table, human []string
+		reqs := []*int64{nil}
+		for h := int64(1); h <= c.n+2; h++ {
+			h := h
+			reqs = append(reqs, &h)
+		}
+		for _, rq := range reqs {
+			res, err := fn(rq)
+			if err != nil {
+				table = append(table, vg.Tup(c20OptZ(rq), "None"))
+				human = append(human, fmt.Sprintf("%s->error", c20OptZ(rq)))
+				continue
+			}
+			v := c20Wire(res)
+			table = append(table, vg.Tup(c20OptZ(rq), vg.Opt(true, vg.Tup(vg.B(types.ValidateConsensusParams(v.ConsensusParams) == nil), vg.Z(v.BlockHeight),
+				vg.Z(v.ConsensusParams.Block.MaxBytes), vg.Z(v.ConsensusParams.Block.MaxGas)))))
+			human = append(human, fmt.Sprintf("%s->{height %d max_bytes %d max_gas %d}", c20OptZ(rq), v.BlockHeight, v.ConsensusParams.Block.MaxBytes, v.ConsensusParams.Block.MaxGas))
+		}
+		outT := vg.Tup(vg.Z(0), vg.Z(0), vg.Z(0))
+		if run.relayed && out != nil {
+			outT = vg.Tup(vg.Z(out.BlockHeight), vg.Z(out.ConsensusParams.Block.MaxBytes), vg.Z(out.ConsensusParams.Block.MaxGas))
+		}
+		// honest = the unmodified answers of rpc/core, and the light client has the block to check them against
+		honest := (q.kind == "honest" && (q.lcMode == 0 || q.lcMode == 1))
+		cs.Add(id, "params-req/"+q.kind, !honest,
+			vg.App("CParamsReq", lc.term(false), c20OptZ(hp), vg.L(table), vg.L(asked), vg.B(run.relayed), outT, vg.L(run.calls), vg.B(honest)),
+			fmt.Sprintf("chain#%d(n=%d) ConsensusParams(%s); full node at store height %d, light client: %s; the server (%s) answers request->answer %v; requests received %v; relayed=%v err=%q",
+				c.idx, c.n, c20OptZ(hp), c.n, lc.updateDescr(), q.kind, human, asked, run.relayed, run.err))
+	}
+}
+
 // ---------------------------------------------------------------- BlockResults
 
 var c20ResultsKinds = []string{"honest", "honest", "honest-with-txs", "honest-latest-minus-1", "honest-of-latest", "code-forged",
@@ -2154,6 +2326,7 @@ func TestVerifC20Client(t *testing.T) {
 		c20KeyPathCases(t, cs, k, r.Fork(13))
 		c20EmptyAppHashCases(t, cs, c, c20NewChainOpt(k, r.Fork(1), true), r.Fork(14))
 		c20ParamsCases(t, cs, c, r.Fork(8))
+		c20ParamsReqCases(t, cs, c, r.Fork(15))
 		c20ResultsCases(t, cs, c, r.Fork(9))
 		c20ServedCases(t, cs, c, r.Fork(10))
 	}
